@@ -8,14 +8,14 @@ def claim(id, cat, technique, text, note, ref):
     CLAIMS[id]=dict(cat=cat, technique=technique, text=text, note=note, ref=ref)
 
 claim("C02","exploration","runtime monitor: differential oracle (spec-derived reference codec) over generated and enumerated wire values; checkptr build",
- "Every generated wire value is pushed through the real encoder, stream writer, random-access decoder (with forcing, at offset 0 and k) and stream reader (6 chunking classes) and compared byte-for-byte / bit-for-bit with an independent codec written from the Thrift spec; a small-shape family is enumerated completely. Held on the executions observed, not a proof.",
+ "Every generated wire value is pushed through the real encoder, stream writer, random-access decoder (with forcing, at offset 0 and k) and stream reader (7 read-segmentation classes, incl. io.EOF delivered together with the last bytes) and compared byte-for-byte / bit-for-bit with an independent codec written from the Thrift spec; a small-shape family is enumerated completely. Held on the executions observed, not a proof.",
  "trusts refcodec as the statement of the wire format; explores trees up to depth 8, binaries up to 3 MiB", "DESIGN.md §5 C02")
 claim("C03","exploration","runtime monitor: self-consistency oracle (re-encode = consumed prefix, skip length, decoder agreement) + crash/hang watchdog over hostile byte strings; checkptr build",
  "Millions of hostile byte strings per run (uniform, grammar-aware evil encodings, byte mutations, every truncation offset, nesting to 10^5) are decoded by both decoder kinds in child processes; panics, fatal errors and hangs are caught by process monitoring, canonicity by re-encoding and Skip.",
  "inputs <= ~1 MiB, nesting <= 10^5; hang = watchdog + reproduction alone", "DESIGN.md §5 C03")
 
 claim("C12","exploration","runtime monitor: differential oracle (reference envelope codec) + API-agreement oracle over generated requests under scripted read segmentation",
- "Every generated (name,type,seqid,body) is written by all envelope encoders and compared with spec bytes, read back by all envelope decoders, sent as a request in the three framings through DecodeRequest and ReadRequest under six chunking classes (seekable or not), wrong-type rejection is checked, and each response is re-decoded by the reference codec; the internal envelope client/multiplex/server loop is judged on the bytes crossing the transport; mutated byte strings check agreement of the two request APIs.",
+ "Every generated (name,type,seqid,body) is written by all envelope encoders and compared with spec bytes, read back by all envelope decoders, sent as a request in the three framings through DecodeRequest and ReadRequest under seven read-segmentation classes (seekable or not), wrong-type rejection is checked, and each response is re-decoded by the reference codec; the internal envelope client/multiplex/server loop is judged on the bytes crossing the transport; mutated byte strings check agreement of the two request APIs.",
  "trusts refcodec's envelope grammar; message types 0..127, names 1..65536 bytes", "DESIGN.md §5 C12")
 
 claim("C13","exploration","runtime monitor: allocation (MemStats/MemProfile site attribution) and reader-call accounting around single decode calls in memory-limited child processes",
